@@ -49,7 +49,8 @@ Step(x0, cnt2) ==
            g2 == GhostNext(g, x1)
            x == [x1 EXCEPT !.g2 = g2] IN
        /\ st' = r.st
-       /\ g' = g2
+       \* (the replies of a query that is gone can no longer matter: forget them, so that histories merge)
+       /\ g' = [g2 EXCEPT !.replies = [q \in Query |-> IF IsLive(r.st, q) THEN g2.replies[q] ELSE {}]]
        /\ cnt' = cnt2
        /\ bad' = FalsifiedBy(x)
        /\ n' = IF Record THEN n + 1 ELSE n          \* exhaustive runs are bounded by the counters alone
@@ -68,6 +69,7 @@ LaterCfgs == IF AllCfgs THEN {[key |-> k, quorum |-> qm, target |-> tg] : k \in 
                   \cup {[Cfg1 EXCEPT !.key = k] : k \in Key \ {Cfg1.key}}
 DoCall == LET cl == Cardinality(g.called) + 1 IN
           /\ cl \in Caller
+          /\ (cl > 1 => cnt.found <= MaxReplies2)      \* behaviours with several callers live within the smaller budget
           /\ \E cf \in (IF cl = 1 THEN {[key |-> 1, quorum |-> qm, target |-> tg] : qm \in QuorumSet, tg \in {0} \cup uni}
                                    ELSE LaterCfgs) :
                 Step([Base("Call") EXCEPT !.caller = cl, !.key = cf.key, !.quorum = cf.quorum, !.target = cf.target], cnt)
